@@ -82,13 +82,20 @@ def evaluate(obj, nd, mode):
         formulae.config["EVAL_UNSEEN_CATEGORIES"] = old
 
 
+def outcome(t):
+    new, err, warn = t
+    return (err, warn, None if new is None else designs.mat(new.design_matrix),
+            None if new is None else list(getattr(new, "factors_with_new_levels", ())))
+
+
 def explore(tier, seed, res=None, replay=None):
     import formulae
     from formulae.terms import Intercept
     res = res or Result()
     res.rule = ("generated designs x placements of unseen values in predictor / effect / grouping "
                 "variables (incl. one factor of an interaction) x 3 modes set through a sequence of "
-                "config changes; non-trivial = a case with at least one unseen value; distinct by "
+                "config changes, the same frame object evaluated again in the opposite order of "
+                "modes and after an in-place edit; non-trivial = a case with at least one unseen value; distinct by "
                 "(formula, placement, mode)")
     n_cases = 300 if tier == "quick" else 8000
     cases = []
@@ -165,6 +172,36 @@ def explore(tier, seed, res=None, replay=None):
             owners.append(case)
             if rows:
                 res.nontrivial.add((formula, path, mode))
+        # the policy is applied at EVERY evaluation: the same frame object evaluated again in the
+        # opposite order of modes, and after an in-place edit, must behave like a fresh evaluation
+        for part in ("common", "group"):
+            obj = getattr(dm, part)
+            if obj is None:
+                continue
+            first = {m: outcome(evaluate(obj, nd, m)) for m in ("error", "warning", "silent")}
+            again = {m: outcome(evaluate(obj, nd, m)) for m in ("silent", "warning", "error")}
+            res.count("re-evaluations")
+            for m in first:
+                if first[m] != again[m]:
+                    res.failures.append({
+                        "case": {"formula": formula, "seed_path": path, "mode": m, "part": part,
+                                 "history": "error, warning, silent, silent, warning, error"},
+                        "impl": {"first": first[m][:2], "again": again[m][:2]},
+                        "expected": "the same outcome", "finding": None,
+                        "why": f"{part}: evaluating the same new frame again under '{m}' after other "
+                               "modes gives another outcome (policy not applied at every evaluation)"})
+            edited = nd                                   # the same object, edited in place
+            for v in used & set(nd.columns):
+                edited[v] = list(reversed(edited[v].tolist()))
+            inplace = outcome(evaluate(obj, edited, "silent"))
+            fresh = outcome(evaluate(obj, edited.copy(deep=True), "silent"))
+            if inplace != fresh:
+                res.failures.append({
+                    "case": {"formula": formula, "seed_path": path, "mode": "silent", "part": part,
+                             "history": "frame edited in place between two evaluations"},
+                    "impl": {"in_place": inplace[:2], "fresh_copy": fresh[:2]},
+                    "expected": "the same outcome", "finding": None,
+                    "why": f"{part}: a frame edited in place is evaluated as it was before the edit"})
         if len(res.samples) < 5:
             res.samples.append({"formula": formula, "unseen": {str(k): v for k, v in rows.items()}})
     out = ask(reqs)
